@@ -287,3 +287,272 @@ func aliasTableReadyRule(e *Env, rule string) {
 	}
 	r.Check(bad == "", rule, key, fmt.Sprintf("every call of StepCompileMeta.Process that can reach an Alias request (%d) comes after the registration of the user's aliases %s", len(uses), bad))
 }
+
+// handledAfterSupports: the invocation c = x.M(arg) in f happens only after x.Supports(arg) returned true —
+// either tested in f itself, or x is what a finder helper of the package returned, and the helper returns
+// a strategy only from the true edge of strategy.Supports(<the same argument>).
+func handledAfterSupports(f *ssa.Function, c ssa.CallInstruction) bool {
+	if !c.Common().IsInvoke() || len(c.Common().Args) == 0 {
+		return false
+	}
+	recv, arg := c.Common().Value, c.Common().Args[0]
+	for _, sc := range findInvokes(f, "Supports", false) {
+		if sc.Common().Value == recv && sc.Common().Args[0] == arg {
+			for _, ref := range *sc.Value().Referrers() {
+				if iff, isIf := ref.(*ssa.If); isIf && edgeDominates(iff.Block(), true, c) {
+					return true
+				}
+			}
+		}
+	}
+	// finder helper
+	var hc *ssa.Call
+	resIdx := 0
+	switch x := recv.(type) {
+	case *ssa.Extract:
+		hc, _ = x.Tuple.(*ssa.Call)
+		resIdx = x.Index
+	case *ssa.Call:
+		hc = x
+	}
+	if hc == nil {
+		return false
+	}
+	h := hc.Call.StaticCallee()
+	if h == nil || h.Pkg != f.Pkg || len(h.Blocks) == 0 {
+		return false
+	}
+	// which parameter of h receives arg?
+	pidx := -1
+	for i, a := range hc.Call.Args {
+		if a == arg {
+			pidx = i
+		}
+	}
+	if pidx < 0 || pidx >= len(h.Params) {
+		return false
+	}
+	hp := h.Params[pidx]
+	n := 0
+	for _, b := range h.Blocks {
+		ret, ok := b.Instrs[len(b.Instrs)-1].(*ssa.Return)
+		if !ok || b == h.Recover || resIdx >= len(ret.Results) {
+			continue
+		}
+		rv := ret.Results[resIdx]
+		if isNilConst(rv) {
+			continue
+		}
+		n++
+		okRet := false
+		for _, sc := range findInvokes(h, "Supports", false) {
+			if !(sc.Common().Value == rv || sameLoad(sc.Common().Value, rv) || sameExpr(sc.Common().Value, rv, 0)) || sc.Common().Args[0] != ssa.Value(hp) {
+				continue
+			}
+			for _, ref := range *sc.Value().Referrers() {
+				if iff, isIf := ref.(*ssa.If); isIf && edgeDominates(iff.Block(), true, ret) {
+					okRet = true
+				}
+			}
+		}
+		if !okRet {
+			return false
+		}
+	}
+	return n > 0
+}
+
+// sameExpr: two SSA values are the same access path (loads of the same field / element of the same
+// base with the same index value), evaluated twice. Sound only between points with no intervening write
+// to that path; used for receiver-held tables that are written by constructors only.
+func sameExpr(a, b ssa.Value, depth int) bool {
+	if a == b {
+		return true
+	}
+	if depth > 6 {
+		return false
+	}
+	switch x := a.(type) {
+	case *ssa.UnOp:
+		y, ok := b.(*ssa.UnOp)
+		return ok && x.Op == y.Op && sameExpr(x.X, y.X, depth+1)
+	case *ssa.FieldAddr:
+		y, ok := b.(*ssa.FieldAddr)
+		return ok && x.Field == y.Field && sameExpr(x.X, y.X, depth+1)
+	case *ssa.IndexAddr:
+		y, ok := b.(*ssa.IndexAddr)
+		return ok && x.Index == y.Index && sameExpr(x.X, y.X, depth+1)
+	case *ssa.Field:
+		y, ok := b.(*ssa.Field)
+		return ok && x.Field == y.Field && sameExpr(x.X, y.X, depth+1)
+	}
+	return false
+}
+
+// isMissingFilter: h(set, names) returns the elements of names that are NOT keys of set: its result slice is
+// only ever extended by append(result, n) with n an element of the names parameter, behind the failed edge of
+// the comma-ok lookup set[n]. Returns the indices of the set and names parameters.
+func isMissingFilter(h *ssa.Function) (setIdx, namesIdx int, ok bool) {
+	if h == nil || len(h.Blocks) == 0 || len(h.Params) < 2 || h.Signature.Results().Len() != 1 {
+		return 0, 0, false
+	}
+	if _, isSlice := h.Signature.Results().At(0).Type().Underlying().(*types.Slice); !isSlice {
+		return 0, 0, false
+	}
+	setIdx, namesIdx = -1, -1
+	n := 0
+	for _, b := range h.Blocks {
+		for _, ins := range b.Instrs {
+			c, isCall := ins.(*ssa.Call)
+			if !isCall {
+				continue
+			}
+			bi, isB := c.Call.Value.(*ssa.Builtin)
+			if !isB || bi.Name() != "append" || len(c.Call.Args) != 2 {
+				continue
+			}
+			n++
+			// appended element(s): a one-element array holding v
+			sl, isSl := c.Call.Args[1].(*ssa.Slice)
+			if !isSl {
+				return 0, 0, false
+			}
+			al, isAl := sl.X.(*ssa.Alloc)
+			if !isAl {
+				return 0, 0, false
+			}
+			var elem ssa.Value
+			for _, ref := range *al.Referrers() {
+				if ia, isIa := ref.(*ssa.IndexAddr); isIa {
+					for _, r2 := range *ia.Referrers() {
+						if st, isSt := r2.(*ssa.Store); isSt {
+							elem = st.Val
+						}
+					}
+				}
+			}
+			lk := failedLookup(h, c)
+			if lk == nil || elem == nil || unwrap(lk.Index) != unwrap(elem) {
+				return 0, 0, false
+			}
+			// the looked-up map is a parameter, the key an element of another parameter
+			for i, p := range h.Params {
+				if lk.X == ssa.Value(p) {
+					setIdx = i
+				}
+				if ld, isLd := unwrap(elem).(*ssa.UnOp); isLd {
+					if ia, isIa := ld.X.(*ssa.IndexAddr); isIa && ia.X == ssa.Value(p) {
+						namesIdx = i
+					}
+				}
+			}
+		}
+	}
+	return setIdx, namesIdx, n > 0 && setIdx >= 0 && namesIdx >= 0
+}
+
+// missingNameAt: at the error site `ins` of fn a name is known to be missing from a declared set. Either
+// the site lies behind the failed edge of a comma-ok lookup (key = the looked-up name), or it lies in a
+// loop over the result of a missing-filter helper (key = the loop element). names is the list the name
+// was taken from, set the map it was looked up in.
+func missingNameAt(fn *ssa.Function, ins ssa.Instruction) (key, names, set ssa.Value, ok bool) {
+	if lk := failedLookup(fn, ins); lk != nil {
+		var src ssa.Value
+		if ld, isLd := lk.Index.(*ssa.UnOp); isLd {
+			if ia, isIa := ld.X.(*ssa.IndexAddr); isIa {
+				src = ia.X
+			}
+		}
+		return lk.Index, src, lk.X, true
+	}
+	// a membership predicate of the package: `func isKnown(set, name) bool { _, ok := set[name]; return ok }`
+	for _, b := range fn.Blocks {
+		iff, isIf := b.Instrs[len(b.Instrs)-1].(*ssa.If)
+		if !isIf {
+			continue
+		}
+		cond := iff.Cond
+		neg := false
+		if u, isU := cond.(*ssa.UnOp); isU && u.Op == token.NOT {
+			cond, neg = u.X, true
+		}
+		c, isCall := cond.(*ssa.Call)
+		if !isCall {
+			continue
+		}
+		p := c.Call.StaticCallee()
+		if p == nil || len(p.Blocks) != 1 || p.Pkg != fn.Pkg {
+			continue
+		}
+		ret, isRet := p.Blocks[0].Instrs[len(p.Blocks[0].Instrs)-1].(*ssa.Return)
+		if !isRet || len(ret.Results) != 1 {
+			continue
+		}
+		ex, isEx := ret.Results[0].(*ssa.Extract)
+		if !isEx || ex.Index != 1 {
+			continue
+		}
+		lk, isLk := ex.Tuple.(*ssa.Lookup)
+		if !isLk || !lk.CommaOk {
+			continue
+		}
+		si, ki := -1, -1
+		for i, prm := range p.Params {
+			if lk.X == ssa.Value(prm) {
+				si = i
+			}
+			if lk.Index == ssa.Value(prm) {
+				ki = i
+			}
+		}
+		if si < 0 || ki < 0 || si >= len(c.Call.Args) || ki >= len(c.Call.Args) {
+			continue
+		}
+		// the site lies on the edge where the predicate is false
+		if edgeDominates(b, neg, ins) || (!neg && onlyThroughFalse(b, ins.Block())) {
+			k := c.Call.Args[ki]
+			var src ssa.Value
+			if ld, isLd := k.(*ssa.UnOp); isLd {
+				if ia, isIa := ld.X.(*ssa.IndexAddr); isIa {
+					src = ia.X
+				}
+			}
+			return k, src, c.Call.Args[si], true
+		}
+	}
+	for _, b := range fn.Blocks {
+		for _, in2 := range b.Instrs {
+			ia, isIa := in2.(*ssa.IndexAddr)
+			if !isIa {
+				continue
+			}
+			c, isCall := ia.X.(*ssa.Call)
+			if !isCall {
+				continue
+			}
+			si, ni, isF := isMissingFilter(c.Call.StaticCallee())
+			if !isF || !(b == ins.Block() || b.Dominates(ins.Block())) {
+				continue
+			}
+			for _, ref := range *ia.Referrers() {
+				if ld, isLd := ref.(*ssa.UnOp); isLd {
+					return ld, c.Call.Args[ni], c.Call.Args[si], true
+				}
+			}
+		}
+	}
+	return nil, nil, nil, false
+}
+
+// sliceSourceField: the struct field a slice value was loaded from.
+func sliceSourceField(v ssa.Value) string {
+	switch s := v.(type) {
+	case *ssa.UnOp:
+		if fa, ok := s.X.(*ssa.FieldAddr); ok {
+			return fieldName(fa)
+		}
+	case *ssa.Field:
+		return fieldNameT(s.X.Type(), s.Field)
+	}
+	return ""
+}
